@@ -420,7 +420,8 @@ def r18_3(ctx, prog, crate):
     # (1) the returned string is the Display rendering of `val` (no precision: Display for f64 without precision is exact)
     ret = origins(b, {"k": "move", "p": {"l": 0, "proj": [], "ty": ""}})
     calls = [o[1] for o in ret if o[0] == "call"]
-    ok = len(ret) == 1 and len(calls) == 1 and calls[0].callee.endswith("ToString>::to_string")
+    # several `return str` (early returns) are several definitions of the one result
+    ok = len(calls) == len(ret) and len({c_.bb for c_ in calls}) == 1 and calls[0].callee.endswith("ToString>::to_string")
     if ok:
         a0 = S.op(calls[0].args[0])
         ok = a0 == ("arg", 1, ())
